@@ -44,8 +44,9 @@ contract("usim._basics.streams.Queue.put",
          ensures=["loop.activity is me"],
          on_signal=["loop.activity is me"], on_close=[],
          on_exit=[DEAD_NEW],
-         guarantee=["forall(Queue, lambda q: implies(old(q._read_mutex._owner) is not me or old(q._read_mutex._depth) < 1, "
-                    "       len(q._buffer) >= len(old(q._buffer)) and q._buffer[:len(old(q._buffer))] == old(q._buffer)))"],
+         guarantee=['unchanged_except("Queue._buffer", self)',
+                    "implies(old(self._read_mutex._owner) is not me or old(self._read_mutex._depth) < 1, "
+                    "        len(self._buffer) >= len(old(self._buffer)) and self._buffer[:len(old(self._buffer))] == old(self._buffer))"],
          props=["C10", "C20"])
 
 contract("usim._basics.streams.Queue.close",
@@ -77,8 +78,9 @@ contract("usim._basics.streams.Queue._await_message",
          # cancelled / interrupted / closed at any suspension: no item is lost or duplicated, the mutex is given up
          on_signal=["self._buffer == at_last_suspension(self._buffer)", "self._read_mutex._owner is not me"],
          on_exit=[DEAD_NEW],
-         guarantee=["forall(Queue, lambda q: implies(old(q._read_mutex._owner) is not me or old(q._read_mutex._depth) < 1, "
-                    "       len(q._buffer) >= len(old(q._buffer)) and q._buffer[:len(old(q._buffer))] == old(q._buffer)))"],
+         guarantee=['unchanged_except("Queue._buffer", self)',
+                    "implies(old(self._read_mutex._owner) is not me or old(self._read_mutex._depth) < 1, "
+                    "        len(self._buffer) >= len(old(self._buffer)) and self._buffer[:len(old(self._buffer))] == old(self._buffer))"],
          props=["C10", "C20"])
 
 rely("Queue", [], "self._read_mutex._owner is me and self._read_mutex._depth >= 1",
